@@ -1,6 +1,7 @@
 package main
 
 import (
+	"context"
 	"encoding/json"
 	"fmt"
 	"net/http"
@@ -11,6 +12,8 @@ import (
 
 	jose "github.com/go-jose/go-jose/v4"
 
+	"github.com/zitadel/oidc/v3/pkg/op"
+
 	"verif/internal/keys"
 	"verif/internal/opdrv"
 	"verif/internal/vclient"
@@ -19,7 +22,22 @@ import (
 
 // ---------- worlds: one set per worker, so that journal slices belong to exactly one request ----------
 
-type worldKey struct{ Store, Def, Alg int }
+// Opt: 0 default; 1 WithIDTokenHintKeySet({H}); 2 the same plus WithAccessTokenKeySet(decoy); 3 the decoy only.
+// Iss: 0 static issuer; 1 IssuerFromHost(""); 2 IssuerFromHost("/tenant"); 3 IssuerFromForwardedOrHost("").
+type worldKey struct{ Store, Def, Alg, Opt, Iss int }
+
+var optNames = []string{"default", "hint-keyset=H", "hint-keyset=H+access-keyset=decoy", "access-keyset=decoy"}
+var issNames = []string{"static", "from-host", "from-host/tenant", "from-forwarded"}
+var issPaths = []string{"", "", "/tenant", ""}
+
+// staticKeySet is an oidc.KeySet over exactly one public key (kid and alg of the token are not consulted).
+type staticKeySet struct{ k *keys.Key }
+
+func (s staticKeySet) VerifySignature(_ context.Context, jws *jose.JSONWebSignature) ([]byte, error) {
+	return jws.Verify(s.k.Public())
+}
+
+func hintSetKey(alg jose.SignatureAlgorithm) *keys.Key { return keys.Get("c18-hint-H", alg) }
 
 type wctx struct {
 	key     worldKey
@@ -42,6 +60,13 @@ func getWorld(worker int, k worldKey) *wctx {
 	if wc := pools[worker][k]; wc != nil {
 		return wc
 	}
+	wc := newWorld(k)
+	pools[worker][k] = wc
+	return wc
+}
+
+// newWorld builds a fresh provider (both routers) over a fresh store.
+func newWorld(k worldKey) *wctx {
 	cfg := opdrv.DefaultConfig()
 	cfg.DefaultLogoutRedirectURI = defaultURIs[k.Def]
 	alg := jose.RS256
@@ -52,7 +77,22 @@ func getWorld(worker int, k worldKey) *wctx {
 	sig := keys.Get(name, alg)
 	caps := vstore.Full
 	caps.Extras = k.Store >= 1
-	w := opdrv.MustWorld(opdrv.Options{Config: cfg, Caps: caps, SigningKey: sig})
+	opts := opdrv.Options{Config: cfg, Caps: caps, SigningKey: sig}
+	switch k.Opt {
+	case 1:
+		opts.ProviderOpts = []op.Option{op.WithIDTokenHintKeySet(staticKeySet{hintSetKey(alg)})}
+	case 2:
+		opts.ProviderOpts = []op.Option{op.WithAccessTokenKeySet(staticKeySet{keys.Get("c18-decoy", alg)}), op.WithIDTokenHintKeySet(staticKeySet{hintSetKey(alg)})}
+	case 3:
+		opts.ProviderOpts = []op.Option{op.WithAccessTokenKeySet(staticKeySet{keys.Get("c18-decoy", alg)})}
+	}
+	switch k.Iss {
+	case 1, 2:
+		opts.IssuerFn = op.IssuerFromHost(issPaths[k.Iss])
+	case 3:
+		opts.IssuerFn = op.IssuerFromForwardedOrHost(issPaths[k.Iss])
+	}
+	w := opdrv.MustWorld(opts)
 	wc := &wctx{key: k, w: w, clients: map[string]*vclient.Client{}, hints: map[string]*hintSpec{}, defURI: defaultURIs[k.Def], extras: caps.Extras, sig: sig, wrong: keys.Get("c18-wrong", alg)}
 	if k.Store == 2 {
 		w.Store.LogoutRedirect = storageKnobURI
@@ -63,7 +103,6 @@ func getWorld(worker int, k worldKey) *wctx {
 		w.Store.AddClient(c)
 		wc.clients[id] = c
 	}
-	pools[worker][k] = wc
 	return wc
 }
 
